@@ -180,20 +180,35 @@ impl EventGen for Container {
     ) -> Result<(OutputList, Option<BoundingBox>)> {
         if let Some(inner_events) = self.0.inner_events(context) {
             // If there's only text/cdata events, apply to current element and render
-            let mut inner_text = None;
+            // (adjacent pieces - text, CDATA sections - make up the text in document
+            // order; comments are not part of it).
+            let mut pieces = Some(Vec::new());
             for e in inner_events.iter() {
-                if let Some(t) = e.text_string() {
-                    if inner_text.is_none() {
-                        inner_text = Some(t);
-                    }
+                let piece = if let Some(t) = e.text_string() {
+                    (false, t)
                 } else if let Some(c) = e.cdata_string() {
-                    inner_text = Some(c);
+                    (true, c)
+                } else if e.is_comment() {
+                    continue;
                 } else {
                     // not text or cdata - abandon the effort and mark as such.
-                    inner_text = None;
+                    pieces = None;
                     break;
+                };
+                if let Some(pieces) = &mut pieces {
+                    pieces.push(piece);
                 }
             }
+            // White space around a CDATA section (typically the line breaks between it
+            // and the tags) is layout of the source rather than part of the text.
+            let inner_text = pieces.map(|pieces| {
+                let has_cdata = pieces.iter().any(|(is_cdata, _)| *is_cdata);
+                pieces
+                    .into_iter()
+                    .filter(|(is_cdata, t)| *is_cdata || !(has_cdata && t.trim().is_empty()))
+                    .map(|(_, t)| t)
+                    .collect::<String>()
+            });
             // A <text> positioned as only plain SVG allows (per-glyph lists, lengths
             // with units) can't be re-positioned as svgdx text: it stays as written.
             let svg_only_text = self.0.name == "text"
@@ -202,13 +217,15 @@ impl EventGen for Container {
                         .get_attr(a)
                         .is_some_and(|v| is_svg_only_text_position(&v))
                 });
-            if let (true, false, Some(text)) = (
-                self.0.is_graphics_element(),
-                svg_only_text,
-                &inner_text,
-            ) {
+            // svgdx's own shapes take text content just as the SVG ones do
+            let is_shape = self.0.is_graphics_element() || matches!(self.0.name.as_str(), "box" | "point");
+            if let (true, false, Some(text)) = (is_shape, svg_only_text, &inner_text) {
                 let mut el = self.0.clone();
-                el.set_attr("text", text);
+                // no content at all, or only white space (e.g. a line break between the
+                // tags) where there is a `text` attribute, leaves that attribute alone
+                if !(text.is_empty() || (text.trim().is_empty() && el.has_attr("text"))) {
+                    el.set_attr("text", text);
+                }
                 if let Some((start, _end)) = self.0.event_range {
                     el.event_range = Some((start, start)); // emulate an Empty element
                 }
